@@ -1,3 +1,5 @@
 import QuicProofs.Bridge.Recovery
 import QuicProofs.Bridge.VarInt
+import QuicProofs.Lemmas.Recovery
 import QuicProofs.Props.C05VarInt
+import QuicProofs.Props.C09Recovery
